@@ -74,13 +74,10 @@ def handle (j : Json) : Except String Verdict := do
                    why := s!"read #{k} (idx {r.idx}, {targetKind r.ty}): the corrupted view agrees with the base view on everything this read looks at (touchEq, theorem untouched_ok: the model's results are equal) but the implementation's outcomes differ: base {bimpl.compress.take 160}, corrupted {impl.compress.take 160}" }
     -- specification predicate
     if icls == "panic" then
-      if modelIsOpaqueOk m then
-        tags := "codec-panic-na" :: tags
-      else
-        return { agree := (match compareRead m impl with | .agree => true | _ => false),
-                 spec := [("C17", "fail"), ("C16", "fail")],
-                 sig := s!"C17/panic/{attributeRead fm col r impl}/{fam}/{targetKind r.ty}",
-                 tags := tags, why := s!"read #{k} (idx {r.idx}) panics: {impl.compress.take 240}" }
+      return { agree := (match compareRead m impl with | .agree => true | _ => false),
+               spec := [("C17", "fail"), ("C16", "fail")],
+               sig := s!"C17/panic/{attributeRead fm col r impl}/{fam}/{targetKind r.ty}",
+               tags := tags, why := s!"read #{k} (idx {r.idx}) panics: {impl.compress.take 240}" }
     else if icls == "ok" then
       nOk := nOk + 1
       let implVal := (impl.getObjVal? "ok").toOption.getD Json.null
@@ -130,7 +127,6 @@ def handle (j : Json) : Except String Verdict := do
     -- correspondence
     match compareRead m impl with
     | .agree => pure ()
-    | .na _ => tags := "na-codec" :: tags
     | .differ why =>
       return { agree := false, spec := [("C17", "pass"), ("C16", "pass")],
                sig := s!"C17/disagree/{attributeRead fm col r impl}/{fam}/{targetKind r.ty}",
